@@ -74,6 +74,26 @@ theorem c20_no_result_no_restore (prof : Bool) (e : Ending) (body : Bool → Boo
     session false prof (.raised e) body = ([.sudoMinimize prof], e) := by
   simp [session, minimize, restoreNoise]
 
+/-- why SIGTERM has to be handled from the start of the session: a process that dies of a
+signal's default action never restores — FULL STATEMENT "every way a session can end" is false
+for it (the pinned tree had two such windows: before the first benchmark process, and the whole
+session under the parallel scheduler) -/
+theorem c20_killed_session_full_fails :
+    ¬ ∀ (prof : Bool) (rep : Report) (body : Bool → Bool → Body) (p : Nat), changed rep = true →
+        ((sessionDies prof rep body p).filter Ev.isRestore).length = 1 := by
+  intro h
+  have := h false (.json (some .yes) (some .yes) []) (fun _ _ => ⟨[.start 1, .stop 1], .ok true⟩) 1 (by decide)
+  revert this
+  decide
+
+/-- a handled SIGTERM is a `KeyboardInterrupt`: the body ends with `interrupt`, wherever it was,
+and `c20_restore_once` applies -/
+theorem c20_sigterm_handled (prof : Bool) (rep : Report) (tr : List BodyEv) (h : changed rep = true) :
+    ((session false prof rep (fun _ _ => ⟨tr, .interrupt⟩)).1.filter Ev.isRestore).length = 1 ∧
+    (session false prof rep (fun _ _ => ⟨tr, .interrupt⟩)).2 = .interrupt := by
+  obtain ⟨res, _, _, h2, h3⟩ := c20_restore_once prof rep (fun _ _ => ⟨tr, .interrupt⟩) h
+  exact ⟨h3, h2⟩
+
 /-! ## "with -D denoise is never invoked" -/
 
 theorem c20_noD_silent (prof : Bool) (rep : Report) (body : Bool → Bool → Body) :
@@ -336,12 +356,51 @@ theorem c20_wrap_spec (c : WrapCfg) (cmd : Str) (h : (c.useNice || c.useShieldin
   obtain ⟨nice, shield, keys, prof, cset, dn, nc⟩ := c
   simp only at h
   cases nice <;> cases shield <;> cases prof <;> cases cset <;> cases keys <;>
-    simp_all [wrap, wrapWords, joinWith, List.append_assoc]
+    simp_all [wrap, wrapWords, flagWords, joinWith, List.append_assoc]
 
 /-- not wrapped at all when neither capability was granted -/
 theorem c20_wrap_none (c : WrapCfg) (cmd : Str) (hn : c.useNice = false) (hs : c.useShielding = false) :
     wrap c cmd = cmd := by
   simp [wrap, hn, hs]
+
+/-! ### … and on the exec side: what `denoise.py exec` finally starts -/
+
+/-- `denoise.py`'s argument parser reads back from the wrapper's flag words exactly the
+capabilities the wrapper was built from -/
+theorem c20_flags_roundtrip (c : WrapCfg) :
+    parseFlags (flagWords c) {} =
+      { useNice := c.useNice, useShielding := c.useShielding,
+        csetPath := if c.useShielding then c.cset else none, profiling := c.profiling } := by
+  have d1 : sWithoutNice ≠ sCsetPath := by decide
+  have d2 : sWithoutShielding ≠ sCsetPath := by decide
+  have d3 : sForProfiling ≠ sCsetPath := by decide
+  have d4 : sWithoutShielding ≠ sWithoutNice := by decide
+  have d5 : sForProfiling ≠ sWithoutNice := by decide
+  have d6 : sForProfiling ≠ sWithoutShielding := by decide
+  obtain ⟨nice, shield, keys, prof, cset, dn, nc⟩ := c
+  cases nice <;> cases shield <;> cases prof <;> cases cset <;>
+    simp [flagWords, parseFlags, d1, d2, d3, d4, d5, d6]
+
+/-- The process `denoise.py exec` starts for a command wrapped by `wrap`: `cset shield --exec --`
+in front iff shielding was granted and a `cset` is available, `nice -n-20` iff nice was granted —
+both when both were granted — followed by exactly the command. -/
+theorem c20_exec_as_granted (c : WrapCfg) (lookup : Option Str) (cmd : List Str) :
+    execArgv (parseFlags (flagWords c) {}) lookup cmd =
+      (match c.useShielding, (match (if c.useShielding then c.cset else none) with
+                              | some p => some p | none => lookup) with
+       | true, some p => [p, sShield, sDashExec, sDashDash]
+       | _, _ => []) ++
+      (if c.useNice then [sNice, sNiceArg] else []) ++ cmd := by
+  rw [c20_flags_roundtrip]
+  rfl
+
+/-- in particular with both capabilities granted and the cset path handed over -/
+theorem c20_exec_both (c : WrapCfg) (p : Str) (lookup : Option Str) (cmd : List Str)
+    (hn : c.useNice = true) (hs : c.useShielding = true) (hc : c.cset = some p) :
+    execArgv (parseFlags (flagWords c) {}) lookup cmd =
+      [p, sShield, sDashExec, sDashDash, sNice, sNiceArg] ++ cmd := by
+  rw [c20_exec_as_granted]
+  simp [hn, hs, hc]
 
 /-- the capabilities used for wrapping are the reported ones: granted iff the
 report says so (absent or `false` = not granted) -/
